@@ -1,6 +1,8 @@
 SPECIFICATION Spec
 CONSTANTS
-  Cases <- Q_Cases
+  Subs <- Q_Subs
+  HostClasses <- MCHostClasses
+  HostOf <- MCHostOf
   Export = TRUE
   Dev_S27_Ipv6JoinLiteral = FALSE
   Dev_S28_PortZero = FALSE
